@@ -252,6 +252,24 @@ CLAIMED["C09"] = dict(
     technique="contract-based deductive verification: iff-contracts on normal and exceptional exits against the statement's defining clauses, modular callee relation, ghost context chain for loops; bounded differential stand-in",
 )
 
+CLAIMED["C18"] = dict(
+    category="exploration",
+    text="Bounded: the real ArgSpec.__str__/parse_spec/parse_pipeline, ArgSpecConvertible.spec/from_spec and PassPipeline.parse_spec are run on (1) single "
+         "values and seeded tuples of ints (to 10^30), booleans, floats (exponent forms, signed zero, extremes, inf/nan) and 36 hostile strings (quotes, "
+         "backslashes, spaces, commas, braces, non-ASCII, control characters, the words true/false, digit strings) - the parsed spec must have equal "
+         "values of the SAME Python types; (2) every registered pass (133) with seeded option assignments per declared field type (bool, int, str, "
+         "Literal, tuple[...], Optional) - the parsed pass must equal the printed one; pipelines of 2-4 passes; (3) robustness: ALL strings of "
+         "length <= 3 (quick) / 4 (thorough) over a 17-character token alphabet plus seeded longer ones must yield specs or raise "
+         "ArgSpecParseError / ValueError only. Additionally the token-level parser kernel (_parse_parameter_value_element, "
+         "_parse_parameter_value) is under a discharged contract (pyvc + z3): which token kinds are values, what type each yields (a quoted string is "
+         "never turned into a bool or number), `value (, value)*`. Exploration is the honest level: the property is about character-level encodings, "
+         "which the SMT-backed generator does not model.",
+    note="Known findings: strings containing CR/FF/VT and float inf/nan do not round-trip. No registered pass has a float option (floats exercised "
+         "at the ArgSpec level only). Option types outside the documented set are skipped. pyvc + z3 trusted for the kernel.",
+    design="§4 C18, §9",
+    technique="bounded runtime-contract check (round-trip and robustness, exhaustive for short strings) + discharged contracts on the token-level value parser",
+)
+
 NOT_APPLICABLE = {
     "C04": "whole Printer∘Parser composition over every dialect: recursive string programs; no per-function contract within reach of the SMT-backed generator expresses it",
     "C05": "about 80 dialects of hand-written print/parse pairs and a format-string interpreter; same obstacle as C04",
@@ -265,7 +283,7 @@ NOT_APPLICABLE = {
     "C28": "result preservation of an e-graph pipeline: whole-program statement with no per-function postcondition implying it",
 }
 
-NOT_REACHED = ["C06", "C18"]
+NOT_REACHED = ["C06"]
 
 
 def main():
